@@ -1,5 +1,6 @@
-From RsdnsModel Require Import Base Cursor Names Labels RData Reader RecordSet.
-From RsdnsModel.Proofs Require Import CursorSafe LabelsSound Chase FromMsg NameRefEq.
+From RsdnsModel Require Import Base GenHeader Cursor Names Labels Header RData Reader RecordSet.
+From RsdnsModel.Spec Require Import LinearPass.
+From RsdnsModel.Proofs Require Import CursorSafe LabelsSound Chase FromMsg NameRefEq ParseSpec.
 From RsdnsModel.Properties Require Import C06.
 Open Scope N_scope.
 Check (C06_result_is_chain_end : forall msg ty rclass r fuel qname hs name ttl data,
@@ -31,4 +32,16 @@ Check (C06_match_is_decoded_equality : forall msg rclass want name c mk t1 t2 c1
   cwf msg c -> cwf msg name -> vis msg c = vis msg name ->
   read_name msg Heap c = Ok (t1, c1') -> read_name msg Heap name = Ok (t2, c2') ->
   is_match msg rclass want name (Some (c, mk)) = name_eq t1 t2 && ((m_rtype mk =? want) && (m_rclass mk =? rclass))).
-Print Assumptions C06_result_is_chain_end. Print Assumptions C06_chain_end_is_returned. Print Assumptions C06_nothing_qualifies_is_noanswer. Print Assumptions C06_always_terminates. Print Assumptions C06_from_msg_is_chase. Print Assumptions C06_match_is_decoded_equality.
+Check (C06_from_msg_on_parsed_message : forall msg nq an ns ar qs rs e1 e2,
+  ReaderRefine.parsed msg nq an ns ar qs rs e1 e2 -> lenN qs = nq -> lenN rs = an + ns + ar ->
+  forall h, read_header msg (c_new msg) = (c_set_pos (c_new msg) 12, Ok h) ->
+  h_qd h = nq /\ h_an h = an /\ h_ns h = ns /\ h_ar h = ar ->
+  forall ty q, nq = 1 -> getN qs 0 = Some q -> flag_qr (h_flags h) = true -> flag_tc (h_flags h) = false ->
+  exists r4, whole msg (r_cur r4) /\
+    from_msg msg ty =
+    if negb (FromMsgRefine.the_rcode an ns ar rs h =? 0) then Err (BadResponseCode (FromMsgRefine.the_rcode an ns ar rs h)) else
+    let hs := FromMsgRefine.answer_headers msg nq an ns ar qs rs e2 in
+    let* (name, ttl, data) := chase msg (S (length hs)) ty r4 (c_with_pos msg 12) (a_class q) hs in
+    let* (t, _) := read_name msg Heap name in
+    Ok (mkRRset t (a_class q) ttl data)).
+Print Assumptions C06_result_is_chain_end. Print Assumptions C06_chain_end_is_returned. Print Assumptions C06_nothing_qualifies_is_noanswer. Print Assumptions C06_always_terminates. Print Assumptions C06_from_msg_is_chase. Print Assumptions C06_match_is_decoded_equality. Print Assumptions C06_from_msg_on_parsed_message.
